@@ -23,7 +23,7 @@ INTER_OPS = ["step_src", "step_cpy", "edit_src", "edit_cpy", "sync_src", "sync_c
 
 
 def label(cfg):
-    return lattice.cfg_label(cfg) + ("/" + cfg["x"] if cfg.get("x") else "")
+    return lattice.cfg_label(cfg) + ("/" + cfg["x"] if cfg.get("x") else "") + ("/" + cfg["extra"] if cfg.get("extra") else "")
 
 
 def state(sim, tree=False):
@@ -58,6 +58,31 @@ class CopyCase:
         lab = label(cfg)
         integ = cfg["integ"] + ("/" + cfg["x"] if cfg.get("x") else "")
         A = self.sp.build(cfg, hist)
+        extra = cfg.get("extra")
+        fn_extra = None
+        if extra == "display":
+            cl.reb_simulation_add_display_settings(byref(A))
+        elif extra in ("cadence-interval", "cadence-step"):
+            import os
+            import tempfile
+            fd, fn_extra = tempfile.mkstemp(prefix="c17-", suffix=".bin", dir=os.environ.get("VERIF_TMP", "/var/tmp"))
+            os.close(fd)
+            os.unlink(fn_extra)
+            if extra == "cadence-interval":
+                A.save_to_file(fn_extra, interval=0.7)
+            else:
+                A.save_to_file(fn_extra, step=3)
+        try:
+            return self.body(A, cfg, hist, how, inter, V, lab, integ)
+        finally:
+            if fn_extra:
+                import os
+                if os.path.exists(fn_extra):
+                    os.unlink(fn_extra)
+
+    def body(self, A, cfg, hist, how, inter, V, lab, integ):
+        rebound = self.rebound
+        cl = rebound.clibrebound
         if how == "copy":
             B = A.copy()
         elif how == "pickle":
@@ -200,14 +225,63 @@ class Mutation:
         differing = rb.diff_fields(fa, fb, names)
         real = [x for x in differing if not str(x).startswith("walltime")]
         got = cl.reb_simulation_diff(byref(A), byref(B), c_int(2))
+        got_r = cl.reb_simulation_diff(byref(B), byref(A), c_int(2))
         eq = (A == B)
         if not differing:
             return ("normalised-away", name)
+        if real and got != got_r:
+            return ("viol", ("difference-asymmetric:%s" % name, "after mutating %s of a copy reb_simulation_diff(a,b)=%d but reb_simulation_diff(b,a)=%d [base %s]" % (name, got, got_r, label(cfg))))
         if real and (got != 1 or eq):
             return ("viol", ("difference-not-reported:%s" % name, "mutating %s (variant %d) of a copy changes persisted fields %s but reb_simulation_diff returns %d and == is %s [base %s]" % (name, variant, real[:4], got, eq, label(cfg))))
         if not real and (got != 0 or not eq):
             return ("viol", ("walltime-reported:%s" % name, "only wall-clock fields %s differ but reb_simulation_diff returns %d [base %s]" % (differing, got, label(cfg))))
         return ("ok", name)
+
+
+class OneSided:
+    """fields that exist in one of the two simulations only (arrays freed by reset_integrator, display settings, variational
+    configuration): every comparison function must report a difference whatever the order of its arguments"""
+    def __init__(self, rebound):
+        self.rebound = rebound
+        self.sp = c05.SavePoint(rebound, [], [])
+        rebound.clibrebound.reb_simulation_diff.restype = c_int
+
+    def __call__(self, task):
+        bi, kind = task
+        rb.quiet()
+        rebound = self.rebound
+        cl = rebound.clibrebound
+        cfg = BASES[bi]
+        A = self.sp.build(cfg, ["step3"])
+        B = A.copy()
+        if kind == "reset_integrator":
+            B.synchronize()
+            A.synchronize()
+            B2 = A.copy()
+            cl.reb_simulation_reset_integrator(byref(B2))
+            lattice.apply_options(B2, cfg["integ"], cfg.get("o", {}))
+            B = B2
+        elif kind == "display":
+            cl.reb_simulation_add_display_settings(byref(B))
+        elif kind == "variation":
+            if A.N_var or cfg["integ"] in ("janus", "mercurius", "trace", "saba", "eos"):
+                return ("skip", kind)
+            B.add_variation()
+        sa, sb = rb.stream(A), rb.stream(B)
+        fa, fb = rb.fields_masked(sa), rb.fields_masked(sb)
+        fa.pop(87, None)
+        fb.pop(87, None)
+        onesided = sorted(set(fa) ^ set(fb))
+        if not onesided and fa == fb:
+            return ("same", kind)
+        out = []
+        for opt in (2,):
+            r1 = cl.reb_simulation_diff(byref(A), byref(B), c_int(opt))
+            r2 = cl.reb_simulation_diff(byref(B), byref(A), c_int(opt))
+            if r1 != 1 or r2 != 1 or (A == B) or (B == A) or not (A != B) or not (B != A):
+                out.append(("difference-one-sided:%s" % kind, "the two simulations differ (fields present on one side only: %s) but reb_simulation_diff gives %d / %d for the two argument orders, a==b is %s, b==a is %s [base %s]" % (
+                    onesided[:6], r1, r2, A == B, B == A, label(cfg))))
+        return ("viol", out) if out else ("ok", kind)
 
 
 def run(ctx):
@@ -220,6 +294,10 @@ def run(ctx):
             cfgs.append({"integ": integ, "o": o, "sys": "S3", "tp": tp, "dtsign": 1})
     # IAS15 with a tree is the recorded C05 finding (history-dependent tree => different re-ordering); not repeated here
     cfgs += [c for c in c05.configs("quick", False) if c.get("x") and not (c["integ"] == "ias15" and c["x"] in ("tree", "coll-tree"))]
+    # states that only some users ever have: display settings (a fixed-size pointer field), an archive cadence
+    for integ, o in (("ias15", {}), ("whfast", {"safe_mode": 0}), ("mercurius", {})):
+        for extra in ("display", "cadence-interval", "cadence-step"):
+            cfgs.append({"integ": integ, "o": o, "sys": "S3", "tp": 0, "dtsign": 1, "extra": extra})
     depth = 2
     inter_depth = 2 if ctx.tier == "quick" else 3
     tasks = []
@@ -272,6 +350,17 @@ def run(ctx):
             reached[t[1]] = True
         elif st == "ok":
             reached[t[1]] = True
+    ot = [(bi, kind) for bi in range(len(BASES)) for kind in ("reset_integrator", "display", "variation")]
+    ores = pool.run_tasks(OneSided(rebound), ot, timeout=60, chunk=1)
+    for t, r in zip(ot, ores):
+        if r[0] != "ok":
+            ctx.violation("onesided-%s" % r[0], "%s in one-sided case %s: %s" % (r[0], t, str(r[1])[-400:]), {"kind": "onesided", "task": list(t)})
+            continue
+        st, info = r[1]
+        counts["onesided-" + st] = counts.get("onesided-" + st, 0) + 1
+        if st == "viol":
+            for sig, what in info:
+                ctx.violation(sig, what, {"kind": "onesided", "task": list(t)})
     desc = rb.descriptors()
     never = [desc[i]["name"] for i in range(nrows) if i not in reached and desc[i]["dtype"] not in (12, 13)]
     cov = {
